@@ -116,7 +116,7 @@ inside the constructor when thread 1 runs `Close` from CAS to signal; the late i
 by the resolver itself, exactly once, and the resolver reports the disposed error. -/
 example :
     (run (init [thr (.rChk .b false), thr (.cCas (.ret .okUnit))])
-        [0,0,0,0,0,0, 1,1,1,1,1,1,1,1,1, 0,0,0,0]).map
+        [0,0,0,0,0,0, 1,1,1,1,1,1,1,1,1,1, 0,0,0,0]).map
       (fun s => (s.thr.map (·.pc), s.sh.created, s.sh.closed, s.sh.panicked, s.sh.cache.isNone)) =
     some ([.done .disposed, .done .okUnit], [1], [1], false, true) := by decide
 
